@@ -77,6 +77,8 @@ pub(crate) fn simple_key(input: &mut Input<'_>) -> ModalResult<(RawString, Inter
             crate::parser::strings::APOSTROPHE => literal_string.map(|s: &str| s.into()),
             _ => unquoted_key.map(|s: &str| s.into()),
         }
+        // neither `peek(any)` (empty input) nor `unquoted_key` (a byte no key starts with) names what was expected
+        .context(StrContext::Label("key"))
         .with_span()
         .map(|(k, span)| {
             let raw = RawString::with_span(span);
